@@ -175,7 +175,7 @@ def _relr_check(desc):
 
 def _recipes():
     """machine label -> (e_machine, class, orders, flavour, {type: (width, formula)})"""
-    return {
+    t = {
         'x86': (3, 32, [True], 'REL', {R('R_386_NONE'): (0, 'none'), R('R_386_32'): (4, 'S+A'), R('R_386_PC32'): (4, 'S+A-P')}),
         'x64': (62, 64, [True], 'RELA', {R('R_X86_64_NONE'): (0, 'none'), R('R_X86_64_64'): (8, 'S+A'), R('R_X86_64_PC32'): (4, 'S+A-P'),
                                          R('R_X86_64_32'): (4, 'S+A'), R('R_X86_64_32S'): (4, 'S+A')}),
@@ -191,6 +191,11 @@ def _recipes():
                                                 R('R_LARCH_ADD64'): (8, 'V+S+A'), R('R_LARCH_SUB64'): (8, 'V-S-A'), R('R_LARCH_32_PCREL'): (4, 'S+A-P'),
                                                 R('R_LARCH_64_PCREL'): (8, 'S+A-P')}),
     }
+    # the recipes are per machine, not per class: the ELF32 flavours of the same machines (x32, LoongArch32, MIPS n32-style RELA) keep their 8-byte types
+    t['x64_x32'] = (62, 32, [True], 'RELA', t['x64'][4])
+    t['loongarch32'] = (258, 32, [True], 'RELA', t['loongarch'][4])
+    t['mips_rela32'] = (8, 32, [True, False], 'RELA', t['mips_rela'][4])
+    return t
 
 
 def apply_ref(buf, le, relocs, symvals, rela, table):
@@ -342,6 +347,17 @@ def run_apply(ch):
         g = guarded(lambda: (dw.debug_info_sec.size, dw.debug_info_sec.name))
         if g != (PAYLOAD + shift, '.debug_info'):
             fails.append(('debug_info_sec.size/name', (PAYLOAD + shift, '.debug_info'), g))
+        # asking the same file object again - with the same flag, and with the other flag in between - gives the same bytes (relocations are applied to a
+        # fresh copy of the section each time: REL addends live in the section bytes, so a second application on the same buffer doubles them)
+        for label, flags in (('second get_dwarf_info()', [relocate]), ('get_dwarf_info() after one with the other flag', [not relocate, relocate])):
+            for fl in flags:
+                dw2 = guarded(lambda: elf.get_dwarf_info(relocate_dwarf_sections=fl))
+            g = guarded(lambda: dw2.debug_info_sec.stream.getvalue())
+            if g != exp:
+                fails.append((label + ': .debug_info bytes', exp[foff:foff + 8].hex() + '@%d' % foff, (g[foff:foff + 8].hex() if isinstance(g, bytes) else g)))
+            g = guarded(lambda: dw.debug_info_sec.stream.getvalue())
+            if g != exp:
+                fails.append((label + ': bytes of the FIRST DWARFInfo afterwards', exp[foff:foff + 8].hex() + '@%d' % foff, (g[foff:foff + 8].hex() if isinstance(g, bytes) else g)))
     # the file itself is never modified
     return Case(fails, data, repr((outc, exp_err)), nontrivial=bool(relocs) and relocate,
                 sample={'machine': mlabel, 'le': le, 'type': t, 'formula': table[t][1], 'relocs': [(o_, s_, ty_, a_) for o_, s_, ty_, a_ in relocs], 'symval': hex(symval),
